@@ -796,3 +796,52 @@ def unjson_row(row):
         else:
             out.append(v)
     return out
+
+
+def cfg_program(rng, trap_bias=0.35):
+    """Multi-block cf program of xv.gencfg, with the values that are block arguments of pass-through blocks preferred
+    as operands in the blocks they dominate (the situation in which a branch through such a block must not be
+    collapsed). Returns (text, argtypes, rettypes)."""
+    from xv.gencfg import CfgGen
+
+    class Cfg14(CfgGen):
+        def __init__(self, rng):
+            super().__init__(rng)
+            self.trap = set()
+
+        def jump(self, b, scope, target, targs, shuffle=True):
+            extra = super().jump(b, scope, target, targs, shuffle)
+            self.trap.update(extra)
+            return extra
+
+        def segment(self, b, scope, depth):
+            """extra template: a pass-through block (only a cf.br) with TWO predecessors whose argument is also used
+            in the blocks it dominates - it can neither be merged into a predecessor nor be bypassed"""
+            rng = self.rng
+            if depth < 2 and rng.random() < 0.25:
+                self.compute(b, scope, rng.choice([0, 1]))
+                c = self.cond(b, scope)
+                p = self.block(1)
+                n = self.block(rng.choice([1, 2]))
+                if rng.random() < 0.4:
+                    self._cbr(b, c, p, [self.value(b, scope)], p, [self.value(b, scope)])
+                else:
+                    tb, eb = self.block(0), self.block(0)
+                    self._cbr(b, c, tb, [], eb, [])
+                    for side in (tb, eb):
+                        sc = list(scope)
+                        self.compute(side, sc, rng.choice([0, 1, 2]))
+                        self._br(side, p, [self.value(side, sc)])
+                a = p.args[0]
+                self._br(p, n, [a if rng.random() < 0.7 else rng.choice(scope) for _ in n.args])
+                self.trap.add(a)
+                return self.segment(n, scope + [a] + n.args, depth + 1)
+            return super().segment(b, scope, depth)
+
+        def value(self, b, scope):
+            c = [v for v in scope if v in self.trap]
+            if c and self.rng.random() < trap_bias:
+                return self.rng.choice(c)
+            return super().value(b, scope)
+
+    return Cfg14(rng).func("main")
